@@ -5,6 +5,7 @@ accounting and for mechanism keys: it never contains the random words/values the
 """
 
 import ast
+import random
 import re
 from collections import OrderedDict
 
@@ -75,9 +76,9 @@ PUNCT_TEMPLATES = ("%s: %s", "%s:", "%s (in %s)", "%s, %s; %s", "%s - %s", "%s/%
                    "%s %%s and %%(name)s", "caf\u00e9 %s \u03bb", "%s \u2014 %s", "%s {0} and {name!r}")
 # str defaults with characters that are delimiters elsewhere (every one of these round-trips on the unchanged tree)
 STRODD = ["it's", "100%", "{x}", "#tag", "a:b", "a=b", "a,b", "(x)", "[x]", "x;y", " lead", "trail ", "a|b", "True", "5", "-3",
-          "1.5"]
+          "1.5", "'", "%s"]  # (the last two: a lone quote character, a directive)
 # (a double quote, a backslash or a backtick inside a str default are genuine defects of the docstring layer: probe only)
-STRBAD = ['say "hi"', '"hi" he said', '3"', '5" nail', "a\\b", "`tick`"]
+STRBAD = ['say "hi"', '"hi" he said', '3"', '5" nail', "a\\b", "`tick`", '"', "\\t"]
 # str defaults that open and / or close with a quote character
 STRQUOTE = ["'a\"", "\"b'", "'tis", "x'", "\"", "''"]  # (a value that starts and ends with the same quote character is how the IR spells a quoted literal: not a distinct value)
 NESTED_TYPES = ["Optional[List[int]]", "Union[int, str, float]", "List[Optional[str]]", "Dict[str, int]", "Tuple[int, str]",
@@ -341,7 +342,10 @@ def rand_ir(r, nparams=None, type_kinds=TYPE_KINDS, default_kinds=None, suffix_d
                     rp["default"] = "```%r```" % (d,)
                     break
         ret = OrderedDict([("return_type", rp)])
-    return make_ir(r, params, name=name, returns=ret)
+    ir = make_ir(r, params, name=name, returns=ret)
+    if "punct" in doc_kinds and random.Random(r.random()).random() < 0.4:
+        ir["doc"] = "%s %s" % (ir["doc"], punct_doc(r))  # the interface's own description carries punctuation too
+    return ir
 
 
 FAMILIES = (("size", "size_", "sizes", "batch_size", "size2", "resize"), ("x", "x1", "x_", "xx", "_x", "ax"),
